@@ -286,7 +286,7 @@ class BuiltinMixin:
                        z3.ForAll([i], z3.Implies(z3.And(0 <= i, i < v.n), r.a[i] == v.a[i]))),
             z3.ForAll([i, j], z3.Implies(z3.And(0 <= i, i < j, j < r.n), r.a[i] <= r.a[j])),
             z3.ForAll([i], z3.Implies(z3.And(0 <= i, i < r.n), z3.And(0 <= p(i), p(i) < v.n, q(p(i)) == i, r.a[i] == v.a[p(i)]))),
-            z3.ForAll([i], z3.Implies(z3.And(0 <= i, i < v.n), z3.And(0 <= q(i), q(i) < r.n, p(q(i)) == i))),
+            z3.ForAll([i], z3.Implies(z3.And(0 <= i, i < v.n), z3.And(0 <= q(i), q(i) < r.n, p(q(i)) == i, r.a[q(i)] == v.a[i]))),
         )
         return r
 
@@ -623,7 +623,8 @@ class BuiltinMixin:
             L = self.as_slist(recv, hint) if not isinstance(recv, SList) else recv
             j = z3.Int(fresh_name("m"))
             if name == "append":
-                if getattr(self, "net_cover", False) and (L.ety is TNet or isinstance(L.ety, TObj)):
+                if (getattr(self, "net_cover", False) and (L.ety is TNet or isinstance(L.ety, TObj))) or \
+                        (getattr(self, "fresh_append", False) and not getattr(self, "net_cover", False)):
                     # fresh list with a ground fact for the new last element and copy axioms triggered from either side
                     R = fresh(TList(L.ety), "app")
                     st.pc = st.pc + (R.n == L.n + 1, R.a[L.n] == to_term(args[0]),
